@@ -158,6 +158,26 @@ def one_to_one_with_groupby(repo, fi, expr, depth=0):
         if len(cs) == 1 and cs[0].func is not None:
             callee = cs[0].func
             ret = single_return(callee)
+            # helpers with a specification: however they are written, agreement with the specification says what they map
+            SPEC_ROLE = {"groupby_chunks": None, "merge_chunk_info": "selected"}  # None: produces one key per touched chunk
+            if callee.qualname in SPEC_ROLE and callee.module.name == ARRAY:
+                from .c01 import decide_on_representatives
+                try:
+                    res = decide_on_representatives(repo, callee, callee.qualname)
+                except AnalysisError:
+                    res = None
+                if res is not None and res[0]:
+                    role = SPEC_ROLE[callee.qualname]
+                    if role is None:
+                        return True, f"{callee.qualname} (== specification: one key per touched chunk)"
+                    from ..interproc import bind_args
+                    bound, _ = bind_args(cs[0], expr)
+                    if role in bound or callee.positional_params and callee.positional_params[0] in bound:
+                        arg = bound.get(role, bound.get(callee.positional_params[0]))
+                        ok2, why2 = one_to_one_with_groupby(repo, fi, arg, depth + 1)
+                        return ok2, f"{callee.qualname}(== specification; {why2})"
+                elif res is not None:
+                    return False, f"{callee.qualname} differs from its specification: {res[1]}"
             if ret is None:
                 verdict, why, pname = loop_built_one_to_one(callee)
                 if verdict is None:
